@@ -78,6 +78,7 @@ Fixpoint wf (l : nat) (e : expr) : Prop :=
   | ECall f a => l <= 17 /\ wf 17 f /\ wf 1 a
   | EDot x _ c => if c then l <= 17 /\ wf 17 x else l <= 19 /\ wf 19 x
   | EIndex x i c => (if c then l <= 17 /\ wf 17 x else l <= 19 /\ wf 19 x) /\ wf 0 i
+  | EConst _ => True          (* a literal / an identifier reference: PrimaryExpression *)
   end.
 
 (* ---------- what the minifier's maps must satisfy ---------- *)
@@ -88,5 +89,26 @@ Definition binary_ok (T : tables) (e : string * (nat * nat * nat)) : bool :=
 Definition unary_ok (T : tables) (e : string * (nat * nat)) : bool :=
   let '(op, (lv, ol)) := e in
   pmem (t_unop T) op && pmem (t_unary T) op && Nat.leb (plookup (t_unop T) op) lv && Nat.leb ol (plookup (t_unary T) op).
+(* the grammar level of the text that replaces a constant: !0 and !1 are UnaryExpressions, 0[0] is a MemberExpression,
+   1/0 a MultiplicativeExpression (const_level_derives / const_level_tight in PrintProofs.v) *)
+Definition const_level (k : constk) : nat :=
+  match k with CTrue | CFalse => 14 | CUndefined => 19 | CInfinity => 12 end.
+Definition all_consts : list constk := [CTrue; CFalse; CUndefined; CInfinity].
+(* the replacement is parenthesised at every position that needs more than its grammar level: guard <= level.
+   (That the replacement TEXT derives the replacement TREE at that level is a fact about the grammar alone.) *)
+Definition const_ok (T : tables) (k : constk) : bool :=
+  pmem (t_const T) (const_name k) && Nat.leb (const_guard T k) (const_level k).
+Definition consts_ok (T : tables) : bool := forallb (const_ok T) all_consts.
 Definition prec_tables_ok (T : tables) : bool :=
-  forallb (binary_ok T) spec_binary && forallb (unary_ok T) spec_prefix && forallb (unary_ok T) spec_postfix.
+  forallb (binary_ok T) spec_binary && forallb (unary_ok T) spec_prefix && forallb (unary_ok T) spec_postfix && consts_ok T.
+
+(* the guard is exactly the level the printer itself assigns to the replacement tree (exprPrec of !0, 0[0], 1/0): the
+   parentheses written around a replacement are then kept when the output is printed again *)
+Definition const_self_prec (T : tables) (k : constk) : nat :=
+  match k with
+  | CTrue | CFalse => plookup (t_unop T) "NotToken"
+  | CUndefined => OpMember
+  | CInfinity => plookup (t_binop T) "DivToken"
+  end.
+Definition consts_exact (T : tables) : bool :=
+  forallb (fun k => Nat.eqb (const_guard T k) (const_self_prec T k)) all_consts.
